@@ -2,7 +2,7 @@
    str, int, float, bool, None, list and dict (with scalar keys), whenever the schema has
    no Any leaf -- so the standard json encoder accepts it. *)
 From Coq Require Import List String Ascii ZArith Bool Lia.
-From Verif Require Import Core TyModel TyProofs TyConform.
+From Verif Require Import Core TupleIdx TyModel TyTuple TyProofs TyConform.
 Import ListNotations.
 Open Scope string_scope.
 Open Scope Z_scope.
@@ -25,9 +25,10 @@ Definition key_scalar (t: sty) : bool :=
 Fixpoint jsonable (t: sty) : bool :=
   match t with
   | SAny => false
-  | SList t' | SSet _ t' | STupleVar t' | SOpt t' => jsonable t'
+  | SList t' | SSet _ t' | STupleVar t' | SOpt t' | SSeq t' | SBox _ t' => jsonable t'
   | STupleFix ts => forallb jsonable ts
-  | SDict kt vt => key_scalar kt && jsonable vt
+  | STupleU pre mid post => forallb jsonable pre && jsonable mid && forallb jsonable post
+  | SDict kt vt | SMap kt vt => key_scalar kt && jsonable vt
   | _ => true end.
 
 Lemma nt_items_forallb {X} (q: pv -> bool) (qc: sfield -> X -> bool) (run: sfield -> X -> res pv) kn ms fds (l: list X) r :
@@ -73,12 +74,52 @@ Section Basic.
   Definition basic_ok (v: pv) : Prop :=
     forall t w, conf_g o E v t = true -> jsonable t = true -> ref_enc E P v t = Ok w -> basic w = true.
 
+  Lemma basic_tupleu l pre mid post w0 : Forall basic_ok l ->
+    conf_g o E (VTuple l) (STupleU pre mid post) = true -> jsonable (STupleU pre mid post) = true ->
+    ref_enc E P (VTuple l) (STupleU pre mid post) = Ok w0 -> basic w0 = true.
+  Proof.
+    intros IHl HC HJ HE. destruct (conf_tupleu_parts _ _ _ _ _ _ HC) as [Hlen [Hpre [Hmid Hpost]]].
+    cbn [jsonable] in HJ. apply andb_prop in HJ. destruct HJ as [HJ Jpost]. apply andb_prop in HJ. destruct HJ as [Jpre Jmid].
+    rewrite ref_enc_unfold in HE.
+    replace (List.length l <? List.length pre + List.length post)%nat with false in HE by (symmetry; apply Nat.ltb_ge; exact Hlen).
+    cbv zeta in HE. unfold tu_split in HE. rewrite !map_length in HE. rewrite !skipn_map, !firstn_map in HE.
+    match type of HE with (bind (bind ?X _) _ = _) => destruct X as [a|] eqn:Ea end; [|discriminate HE]. cbn [bind] in HE.
+    match type of HE with (bind (bind ?X _) _ = _) => destruct X as [m|] eqn:Em end; [|discriminate HE]. cbn [bind] in HE.
+    match type of HE with (bind (bind ?X _) _ = _) => destruct X as [b|] eqn:Eb end; [|discriminate HE]. cbn [bind] in HE.
+    inversion HE. cbn [basic]. rewrite !forallb_app.
+    assert (Hstep: forall M (d: sty) (x: pv) (y: pv), (forall x0, In x0 M -> In x0 l) ->
+              stepR (fun x0 => ref_enc E P x0) (fun (t': sty) (dx: sty -> res pv) => dx t') (fun t' x0 => conf_g o E x0 t') M d x y ->
+              jsonable d = true -> basic y = true).
+    { intros M d x y HM [Hq [Hx Hy]] Hj. apply (Forall_In _ _ IHl x (HM x Hx) d y Hq Hj Hy). }
+    rewrite forallb_forall in Jpre, Jpost.
+    apply andb_true_intro. split; [|apply andb_true_intro; split].
+    - pose proof (zip3_in _ _ _ _ (pos_walk_zip _ _ _ _ _ _ Hpre Ea)) as Hz.
+      refine (zip3_forallb _ basic _ _ _ _ Hz). intros d x y [Hd Hs].
+      exact (Hstep _ d x y (fun x0 H0 => in_firstn _ _ _ H0) Hs (Jpre d Hd)).
+    - destruct mid; try discriminate Hmid.
+      + cbn [jsonable] in Jmid. pose proof (mid_var_zip (fun x0 => ref_enc E P x0) (fun (t': sty) (dx: sty -> res pv) => dx t') (fun t' x0 => conf_g o E x0 t') _ mid _ Hmid Em) as Hf.
+        refine (Forall2_forallb _ basic _ _ _ Hf). intros x y Hs.
+        exact (Hstep _ mid x y (fun x0 H0 => in_skipn _ _ _ (in_firstn _ _ _ H0)) Hs Jmid).
+      + cbn [jsonable] in Jmid. rewrite forallb_forall in Jmid.
+        unfold mid_fix in Em. cbn [omapM] in Em.
+        destruct ts as [|t1 ts].
+        * cbn in Em. inversion Em. reflexivity.
+        * cbn [omapM] in Em.
+          pose proof (zip3_in _ _ _ _ (fix_walk_zip _ _ _ _ _ _ _ Hmid Em)) as Hz.
+          refine (zip3_forallb _ basic _ _ _ _ Hz). intros d x y [Hd Hs].
+          exact (Hstep _ d x y (fun x0 H0 => in_skipn _ _ _ (in_firstn _ _ _ H0)) Hs (Jmid d Hd)).
+    - pose proof (zip3_in _ _ _ _ (pos_walk_zip _ _ _ _ _ _ Hpost Eb)) as Hz.
+      refine (zip3_forallb _ basic _ _ _ _ Hz). intros d x y [Hd Hs].
+      exact (Hstep _ d x y (fun x0 H0 => in_skipn _ _ _ H0) Hs (Jpost d Hd)).
+  Qed.
+
   Theorem ref_enc_basic : forall v, basic_ok v.
   Proof.
     induction v as [ | b | z | f | s | m b | l IHl | l IHl | fr l IHl | kvs IHk | c fs IHf | e m | k w | c l IHl | tg ]
       using pv_rect'; unfold basic_ok.
-    all: intros t; induction t as [ | | | | | | m' | k' | e' | t' IHt | fr' t' IHt | t' IHt | ts | kt IHkt vt IHvt | t' IHt | c' | c' | c' ];
-      intros w0 HC HJ HE; rewrite conf_unfold in HC; try discriminate HC; try discriminate HJ;
+    all: intros t; induction t as [ | | | | | | m' | k' | e' | t' IHt | fr' t' IHt | t' IHt | ts | pre mid IHmid post | kt IHkt vt IHvt | t' IHt | c' | c' | c' | t' IHt | kt IHkt vt IHvt | bx t' IHt ];
+      intros w0 HC HJ HE; try (solve [apply (basic_tupleu _ _ _ _ _ IHl HC HJ HE)]);
+      rewrite conf_unfold in HC; try discriminate HC; try discriminate HJ;
       rewrite ref_enc_unfold in HE; try (inversion HE; reflexivity).
     (* Optional *)
     all: try solve [ cbn [is_none orb] in HC, HE; cbn [jsonable] in HJ; apply (IHt w0 HC HJ HE) ].
@@ -87,6 +128,23 @@ Section Basic.
                      destruct (mapM _ _) as [r|] eqn:Em; [|discriminate HE]; inversion HE; cbn [basic];
                      refine (forallb_mapM_res _ _ _ _ _ Em); intros x y Hx Hy;
                      rewrite forallb_forall in HC; apply (Forall_In _ _ IHl x Hx t' y (HC x Hx) HJ Hy) ].
+    (* dict / Mapping *)
+    all: try solve [
+      apply andb_prop in HC; destruct HC as [_ HC]; cbn [jsonable] in HJ; apply andb_prop in HJ; destruct HJ as [Jk Jv];
+      match type of HE with (bind ?X _ = _) => destruct X as [r|] eqn:Em end; [|discriminate HE]; inversion HE; cbn [basic];
+      apply (forallb_dict_of_pairs _ r (fun _ _ _ _ => or_intror I) scalar_basic basic (fun k v => eq_refl));
+      refine (forallb_mapM_res _ _ _ _ _ Em); intros [k x] [k' x'] Hp Hy;
+      destruct (Forall_In _ _ IHk (k, x) Hp) as [_ Qx]; cbn [snd] in Qx;
+      rewrite forallb_forall in HC; specialize (HC (k, x) Hp); cbn in HC; apply andb_prop in HC; destruct HC as [Ck Cx];
+      destruct (ref_enc E P k kt) as [k1|] eqn:Ek; [|discriminate Hy]; cbn [bind] in Hy;
+      destruct (ref_enc E P x vt) as [x1|] eqn:Ex; [|discriminate Hy]; inversion Hy; subst;
+      rewrite (enc_key_scalar k kt k' Jk Ck Ek); rewrite (Qx vt x' Cx Jv Ex); reflexivity ].
+    (* boxed collections *)
+    all: try solve [
+      destruct fs as [|[n inner] [|]]; try discriminate HC;
+      apply andb_prop in HC; destruct HC as [_ HC]; cbn [jsonable] in HJ;
+      destruct (chain_empty (is_chain bx) inner); [inversion HE; reflexivity|];
+      inversion IHf as [|? ? Qi _]; subst; cbn [snd] in Qi; apply (Qi t' w0 HC HJ HE) ].
     - (* fixed tuple *)
       cbn [jsonable] in HJ.
       match type of HE with (bind ?X _ = _) => destruct X as [r|] eqn:Em end; [|discriminate HE]. inversion HE. cbn [basic].
@@ -98,16 +156,6 @@ Section Basic.
         destruct (ref_enc E P x t1) as [y|] eqn:Ey; [|discriminate Em]. cbn [bind] in Em.
         match type of Em with (bind ?X _ = _) => destruct X as [ys|] eqn:Eys end; [|discriminate Em].
         inversion Em; subst. cbn [forallb]. rewrite (Qx t1 y Cx Jx Ey). apply (IHl' Ql ts ys Cl Jl Eys).
-    - (* dict *)
-      apply andb_prop in HC. destruct HC as [_ HC]. cbn [jsonable] in HJ. apply andb_prop in HJ. destruct HJ as [Jk Jv].
-      match type of HE with (bind ?X _ = _) => destruct X as [r|] eqn:Em end; [|discriminate HE]. inversion HE. cbn [basic].
-      apply (forallb_dict_of_pairs _ r (fun _ _ _ _ => or_intror I) scalar_basic basic (fun k v => eq_refl)).
-      refine (forallb_mapM_res _ _ _ _ _ Em). intros [k x] [k' x'] Hp Hy.
-      destruct (Forall_In _ _ IHk (k, x) Hp) as [_ Qx]. cbn [snd] in Qx.
-      rewrite forallb_forall in HC. specialize (HC (k, x) Hp). cbn in HC. apply andb_prop in HC. destruct HC as [Ck Cx].
-      destruct (ref_enc E P k kt) as [k1|] eqn:Ek; [|discriminate Hy]. cbn [bind] in Hy.
-      destruct (ref_enc E P x vt) as [x1|] eqn:Ex; [|discriminate Hy]. inversion Hy; subst.
-      rewrite (enc_key_scalar k kt k' Jk Ck Ek). rewrite (Qx vt x' Cx Jv Ex). reflexivity.
     - (* TypedDict *)
       destruct (sfind E _ c') as [k0|] eqn:Ef; [|discriminate HE].
       pose proof (sfind_jsonable _ c' k0 Ef) as HJf.
